@@ -120,6 +120,20 @@ CHECKS = {
              "becomes the newest archive and the first record starts a fresh file are read off the parsed directory.",
         note=TLC_BASE + "; sizes in abstract units (10 / 16 / 400 bytes when replayed); compress step atomic; single appender thread in the replay; simultaneous first appends are serialised by the appender mutex (threaded scenario: see DESIGN)",
         design="7/C17"),
+    "C04": dict(
+        category="model_checking",
+        technique="TLA+ spec (FileAppender.tla) model-checked by TLC; traces recorded from real threads (hook events "
+                  "under the lock, file read inside the hook) validated against the spec with TLC (impl->spec)",
+        text="FileAppender.tla models threads x the 1 KiB BufWriter (buffer / spill / write-through rule transcribed "
+             "from std) x the lock spanning encode and flush; TLC checks Durable, NotInterleaved, ThreadOrder, "
+             "PrefixKept, TruncatedAtOpen, WholeExceptHolder, NoDupNoLoss for 2-3 threads. Real threads then append "
+             "records with chunk shapes around the buffer size under a seeded race amplifier; the trace (lock / chunk / "
+             "encoded / flushed events with the real file content read while the lock is held, begin / end / saw "
+             "events from the callers) must be a behaviour of the specification: the spec's disk must equal the real "
+             "file at every encoded and flushed event and every invariant is evaluated at every step.",
+        note=TLC_BASE + "; 1 unit = 256 bytes; schedules are sampled (seeded amplifier), not enumerated; hook events "
+             "are emitted under the appender lock",
+        design="7/C04"),
 }
 
 NOT_YET = "check not built yet in this round (planned, see DESIGN.md section 7)"
